@@ -526,6 +526,58 @@ def std_checks(rep, results, oracle=None):
                 rep.oracle_failures.append({'case': case, 'impl': impl, 'why': o})
 
 
+    if rep.tier == 'thorough' or os.environ.get('VERIF_INCOQ'):
+        incoq_replay(rep, results)
+
+
+def incoq_replay(rep, results, n=4):
+    """cross-check of extraction: a few of the sessions the extracted binary ran are re-evaluated inside Coq
+    (vm_compute on Cases.run_line) and must give the same output line"""
+    cand = []
+    for case, impl, mout, cmp in results:
+        line = impl.get('model_line')
+        if not line or not mout or mout.startswith('CRASH'):
+            continue
+        if any(ord(ch) < 32 or ord(ch) > 126 for ch in line + mout):
+            continue
+        cand.append((len(line), line, mout))
+    cand.sort()
+    cand = cand[:n]
+    info = {'cases': len(cand), 'agree': 0, 'skipped': 0, 'differ': 0}
+    procs = []
+    for k, (_, line, mout) in enumerate(cand):
+        name = f'cases_{rep.pid}_{os.getpid()}_{k}'
+        path = os.path.join(COQ, name + '.v')
+        q = lambda t: t.replace('"', '""')
+        with open(path, 'w') as f:
+            f.write('From WalModel Require Import Cases.\nLocal Open Scope string_scope.\n'
+                    f'Goal run_line "{q(line)}" = "{q(mout)}".\nProof. vm_compute. reflexivity. Qed.\n')
+        procs.append((name, line, mout, subprocess.Popen(
+            f'ulimit -s unlimited 2>/dev/null; timeout 600 coqc -Q . WalModel {name}.v', shell=True, cwd=COQ,
+            stdout=subprocess.PIPE, stderr=subprocess.STDOUT, text=True)))
+    for name, line, mout, pr in procs:
+        out, _ = pr.communicate()
+        for ext in ('.v', '.vo', '.vok', '.vos', '.glob'):
+            try:
+                os.remove(os.path.join(COQ, name + ext))
+            except OSError:
+                pass
+        try:
+            os.remove(os.path.join(COQ, '.' + name + '.aux'))
+        except OSError:
+            pass
+        if pr.returncode == 0:
+            info['agree'] += 1
+        elif 'Unable to unify' in out:
+            info['differ'] += 1
+            rep.mismatches.append({'case': {'model_line': line[:2000]}, 'model': mout[:2000],
+                                   'diff': 'extraction cross-check: Cases.run_line evaluated inside Coq (vm_compute) differs from the '
+                                           'output of the extracted OCaml binary: ' + out[-600:]})
+        else:
+            info['skipped'] += 1      # timeout / resource limit of the in-Coq evaluation: not a verdict
+    rep.extra['in_coq_replay'] = info
+
+
 def final_fields(final):
     """'END out=<hex> idx=a:1,b:2, scope=.. group=.. stack=0 cur=g n=1' -> dict (out decoded)"""
     d = {}
